@@ -481,7 +481,8 @@ def wbem_request(conn, req_data, cimxml_headers, target_type='server'):
         'Content-type': 'application/xml; charset="utf-8"',
         'Content-length': f'{len(req_body)}',
     }
-    req_headers.update(dict(cimxml_headers))
+    for hdr_name, hdr_value in cimxml_headers:
+        req_headers[hdr_name] = cimxml_header_value(hdr_value)
 
     if target_type == 'server' and conn.creds is not None:
         auth = f'{conn.creds[0]}:{conn.creds[1]}'
@@ -616,6 +617,23 @@ def wbem_request(conn, req_data, cimxml_headers, target_type='server'):
             recorder.stage_http_response2(resp_body)
 
     return resp_body, svr_resp_time
+
+
+def cimxml_header_value(value):
+    """
+    Return the value of a CIM-XML extension header field encoded as required
+    by DSP0200 (section "Encoding of CIM Element Names within HTTP Headers
+    and Trailers"): The value is first encoded in UTF-8, and then every byte
+    that is not a printable US-ASCII character, as well as the percent
+    character, is escaped as %HH.
+
+    Without this encoding, characters outside of ISO-8859-1 cannot be
+    transmitted in an HTTP header field at all.
+    """
+    value_bytes = _ensure_bytes(value)
+    return ''.join(
+        chr(b) if 0x20 <= b <= 0x7E and b != 0x25 else f'%{b:02X}'
+        for b in value_bytes)
 
 
 def max_repr(text, max_len=1000):
